@@ -118,6 +118,7 @@ func (rc *runCtx) runChunk(ch chunk) {
 			"VERIF_RACE_LOG="+raceLog,
 			"GORACE=halt_on_error=0 history_size=5 log_path="+raceLog,
 		)
+		cmd.Env = append(cmd.Env, rc.p.Env...)
 		stderrPath := filepath.Join(dir, "stderr")
 		ef, _ := os.Create(stderrPath)
 		cmd.Stderr = ef
